@@ -13,8 +13,11 @@ import (
 	"bufio"
 	"encoding/json"
 	"fmt"
+	"io"
+	"log/slog"
 	"net"
 	"os"
+	"runtime"
 	"sync"
 	"testing"
 	"testing/synctest"
@@ -25,13 +28,15 @@ import (
 )
 
 type vnStep struct {
-	A   string `json:"a"`
-	C   int    `json:"c"`
-	Dst int    `json:"dst"`
-	Src int    `json:"src"`
-	To  int    `json:"to"`
-	D   int    `json:"d"`
-	Mid int    // sender of a datagram that arrives while the harness is inside natconn.WriteTo for this client datagram (0: none)
+	A      string `json:"a"`
+	C      int    `json:"c"`
+	Dst    int    `json:"dst"`
+	Src    int    `json:"src"`
+	To     int    `json:"to"`
+	D      int    `json:"d"`
+	Cls    string `json:"cls"`
+	MidCls string
+	Mid    int // sender of a datagram that arrives while the harness is inside natconn.WriteTo for this client datagram (0: none)
 }
 
 // destination token to which the fake outbound conn cannot send
@@ -186,7 +191,9 @@ func (c *vnConn) Close() error {
 	c.signal()
 	return nil
 }
-func (c *vnConn) LocalAddr() net.Addr                { return &net.UDPAddr{IP: net.IPv4(10, 9, 9, 9), Port: 40000 + c.a} }
+func (c *vnConn) LocalAddr() net.Addr {
+	return &net.UDPAddr{IP: net.IPv4(10, 9, 9, 9), Port: 40000 + c.a}
+}
 func (c *vnConn) SetDeadline(t time.Time) error      { return nil }
 func (c *vnConn) SetWriteDeadline(t time.Time) error { return nil }
 
@@ -208,8 +215,10 @@ func (c *vnClientConn) WriteTo(p []byte, addr net.Addr) (int, error) {
 	c.mu.Unlock()
 	return len(p), nil
 }
-func (c *vnClientConn) Close() error                       { return nil }
-func (c *vnClientConn) LocalAddr() net.Addr                { return &net.UDPAddr{IP: net.IPv4(127, 0, 0, 1), Port: 9000} }
+func (c *vnClientConn) Close() error { return nil }
+func (c *vnClientConn) LocalAddr() net.Addr {
+	return &net.UDPAddr{IP: net.IPv4(127, 0, 0, 1), Port: 9000}
+}
 func (c *vnClientConn) SetDeadline(t time.Time) error      { return nil }
 func (c *vnClientConn) SetReadDeadline(t time.Time) error  { return nil }
 func (c *vnClientConn) SetWriteDeadline(t time.Time) error { return nil }
@@ -295,6 +304,18 @@ type vnReply struct {
 	a       int
 	src     int
 	payload []byte
+}
+
+func (h *vnHarness) countPktT() int {
+	h.met.mu.Lock()
+	defer h.met.mu.Unlock()
+	n := 0
+	for _, e := range h.met.ev {
+		if e.m == "PktT" {
+			n++
+		}
+	}
+	return n
 }
 
 func (h *vnHarness) tokOf(addr string) int { return h.addrTok[addr] }
@@ -468,7 +489,11 @@ func TestVerifNatmap(t *testing.T) {
 			for c := 1; c <= 4; c++ {
 				h.cliTok[vnClientAddr(c).String()] = c
 			}
-			h.nm = newNATmap(time.Duration(cfg.T)*unit, h.met, noopLogger())
+			lg := noopLogger()
+			if bi%2 == 1 { // debug logging enabled (-verbose)
+				lg = slog.New(slog.NewTextHandler(io.Discard, &slog.HandlerOptions{Level: slog.LevelDebug}))
+			}
+			h.nm = newNATmap(time.Duration(cfg.T)*unit, h.met, lg)
 			h.emit(map[string]any{"ev": "Reset", "beh": bi})
 			shut := false
 			// a TReplyMid right after a CDgram is delivered INSIDE that datagram's WriteTo; any other one is an ordinary reply
@@ -476,17 +501,20 @@ func TestVerifNatmap(t *testing.T) {
 			for _, st := range beh {
 				if st.A == "TReplyMid" {
 					if n := len(steps); n > 0 && steps[n-1].A == "CDgram" && steps[n-1].Mid == 0 && steps[n-1].C == st.To {
-						steps[n-1].Mid = st.Src
+						steps[n-1].Mid, steps[n-1].MidCls = st.Src, st.Cls
 						continue
 					}
 					st.A = "TReply"
 				}
 				steps = append(steps, st)
 			}
-			inject := func(fc *vnConn, src int) int {
+			inject := func(fc *vnConn, src int, cls string) int {
 				h.nRp++
 				sid := h.nRp
 				payload := []byte(fmt.Sprintf("reply-%d", sid))
+				if cls == "0" {
+					payload = []byte{} // a zero-length datagram is a datagram: it must be relayed as an empty payload
+				}
 				fc.mu.Lock()
 				nw := 0
 				for _, o := range fc.ops {
@@ -498,7 +526,7 @@ func TestVerifNatmap(t *testing.T) {
 				a := fc.a
 				fc.mu.Unlock()
 				h.replies[sid] = vnReply{a: a, src: src, payload: payload}
-				h.emit(map[string]any{"ev": "SSend", "id": sid, "src": src, "a": a, "sz": len(payload), "nw": nw, "fits": true, "t": h.units(time.Now())})
+				h.emit(map[string]any{"ev": "SSend", "id": sid, "src": src, "a": a, "sz": len(payload), "rd": len(payload), "nw": nw, "fits": true, "t": h.units(time.Now())})
 				fc.signal()
 				return sid
 			}
@@ -542,8 +570,13 @@ func TestVerifNatmap(t *testing.T) {
 					if st.Mid != 0 {
 						fc.mu.Lock()
 						fc.gate = func() {
-							midSid = inject(fc, st.Mid)
-							synctest.Wait()
+							// (no synctest.Wait here: the caller may hold a lock of the code under test; yield until the
+							// association's goroutine has reported the datagram, or give up after a bounded number of yields)
+							before := h.countPktT()
+							midSid = inject(fc, st.Mid, st.MidCls)
+							for i := 0; i < 20000 && h.countPktT() == before; i++ {
+								runtime.Gosched()
+							}
 						}
 						fc.mu.Unlock()
 					}
@@ -560,7 +593,7 @@ func TestVerifNatmap(t *testing.T) {
 						closed := fc.closed
 						fc.mu.Unlock()
 						if pending && !closed { // onWrite did not move the deadline: the datagram simply arrives after the write
-							midSid = inject(fc, st.Mid)
+							midSid = inject(fc, st.Mid, st.MidCls)
 						}
 					}
 					h.flush(did, midSid)
@@ -569,7 +602,7 @@ func TestVerifNatmap(t *testing.T) {
 					if fc == nil {
 						continue
 					}
-					sid := inject(fc, st.Src)
+					sid := inject(fc, st.Src, st.Cls)
 					h.flush(0, sid)
 				case "Tick":
 					time.Sleep(time.Duration(st.D) * unit)
